@@ -40,6 +40,7 @@ Definition op_of_sx (s : sx) : option op :=
   | L [A 10; A ir; a; b] => Some (OModDelSlice ir (un_opt a) (un_opt b))
   | L [A 11; A ir; A i; A v] => Some (OModSetItem ir i v)
   | L [A 12; A ir; a; b; vs] => Some (OModSetSlice ir (un_opt a) (un_opt b) (un_zs vs))
+  | L [A 32; A ir; a; b; A c; vs] => Some (OModSetExt ir (un_opt a) (un_opt b) c (un_zs vs))
   | L [A 13; A ir] => Some (OModClear ir)
   | L [A 14; A bi; a] => Some (OAttrAddr bi (un_opt a))
   | L [A 15; A n; A sz] => Some (OAttrSize n sz)
